@@ -23,6 +23,10 @@ pub struct Spec {
     session: bool,   // a prior session cookie is presented
     host: String,    // empty | name | port0
     second: String,  // same | other-port | other-ip | login-intent | after-expiry
+    /// real milliseconds the client of the first connection waits before Client Information (the cookie
+    /// must be stamped with the time of issue, not with the time the connection started)
+    #[serde(default)]
+    stall_ms: u64,
 }
 
 fn ident(s: &Spec) -> (String, u128) {
@@ -83,6 +87,10 @@ fn first_case(s: &Spec) -> Case {
     case.cfg.auth_secret = secret(s);
     case.cfg.client_addr = addr(s);
     case.script = Login { host: h, port: p, session: s.session.then(|| SESSION_JSON.to_vec()), ..Default::default() }.steps();
+    if s.stall_ms > 0 {
+        let at = case.script.iter().position(|st| matches!(st.act, Act::ClientInfo { .. })).unwrap_or_else(|| common::machinery("C10: no Client Information step"));
+        case.script.insert(at, st(When::Idle, Act::RealSleep(s.stall_ms)));
+    }
     case.adapters.auth = AuthPlan::Profile { name, uuid, props: props(s.props) };
     case.adapters.disc = DiscPlan::Targets(vec![TargetSpec::new("decoy", "10.0.0.9:1"), TargetSpec::new(&target_id(s), "10.1.2.3:25565")]);
     case.adapters.strat = StratPlan::Pick(1);
@@ -298,7 +306,7 @@ fn specs(thorough: bool) -> Vec<Spec> {
                             for pr in 0..3 {
                                 for t in targets {
                                     for h in hosts {
-                                        v.push(Spec { ident: i.into(), props: pr, target: t.into(), addr: a.into(), secret: sc.into(), session: sess, host: h.into(), second: snd.into() });
+                                        v.push(Spec { ident: i.into(), props: pr, target: t.into(), addr: a.into(), secret: sc.into(), session: sess, host: h.into(), second: snd.into(), stall_ms: 0 });
                                     }
                                 }
                             }
@@ -307,7 +315,7 @@ fn specs(thorough: bool) -> Vec<Spec> {
                         // the large domains are rotated against the complete small product
                         for r in 0..3 {
                             let j = k + r * 5;
-                            v.push(Spec { ident: idents[j % 4].into(), props: j % 3, target: targets[(j / 2) % 4].into(), addr: a.into(), secret: sc.into(), session: sess, host: hosts[(j / 3) % 3].into(), second: snd.into() });
+                            v.push(Spec { ident: idents[j % 4].into(), props: j % 3, target: targets[(j / 2) % 4].into(), addr: a.into(), secret: sc.into(), session: sess, host: hosts[(j / 3) % 3].into(), second: snd.into(), stall_ms: 0 });
                         }
                         k += 1;
                     }
@@ -317,17 +325,22 @@ fn specs(thorough: bool) -> Vec<Spec> {
     }
     // one history per address family whose second connection comes after the cookie expired (costs real time)
     for a in addrs {
-        v.push(Spec { ident: "ascii".into(), props: 1, target: "t".into(), addr: a.into(), secret: "64".into(), session: false, host: "name".into(), second: "after-expiry".into() });
+        v.push(Spec { ident: "ascii".into(), props: 1, target: "t".into(), addr: a.into(), secret: "64".into(), session: false, host: "name".into(), second: "after-expiry".into(), stall_ms: 0 });
+    }
+    // first connections on which real time passes before the cookie is issued
+    for (a, sc) in [("v4", "64"), ("v6", "1")] {
+        v.push(Spec { ident: "ascii".into(), props: 1, target: "t".into(), addr: a.into(), secret: sc.into(), session: false, host: "name".into(), second: "same".into(), stall_ms: 2_100 });
     }
     v
 }
 
 fn run_history(s: &Spec) -> (Case, Obs, Obs, Obs, (u64, u64), (u64, u64)) {
     let c1 = first_case(s);
-    let t0 = wall_secs();
+    // the cookie is issued after the client's real-time stall, which starts after t0
+    let t0 = wall_secs() + s.stall_ms / 1000;
     let o1 = crate::sim::run(&c1);
-    let o1b = crate::sim::run(&c1);
     let t1 = wall_secs();
+    let o1b = crate::sim::run(&c1);
     let (auth1, sess1, _) = store_cookies(&o1);
     if s.second == "after-expiry" {
         // expiry 0: the cookie is too old as soon as the wall clock has moved on by a second
